@@ -288,10 +288,21 @@ fn build_src<K: MarkerKind>(case: &SaveCase) -> Result<Src, Violation> {
     // a few holes so that source indices are sparse and partly reused
     let pre: Vec<Entity> = src.create_iter().take(case.holes.len()).collect();
     let n = case.ents.len();
-    let ents: Vec<Entity> = src.create_iter().take(n).collect();
-    if !pre.is_empty() {
+    // odd first hole: the source entities are created through shared access on recycled indices and,
+    // unless a later step maintains, are still unmerged when the world is saved (a reused staging world)
+    let atomic_src = case.holes.first().map(|h| h % 2 == 1).unwrap_or(false);
+    let ents: Vec<Entity> = if atomic_src {
         src.delete_entities(&pre).unwrap();
-    }
+        src.maintain();
+        let e = src.entities();
+        e.create_iter().take(n).collect()
+    } else {
+        let ents = src.create_iter().take(n).collect();
+        if !pre.is_empty() {
+            src.delete_entities(&pre).unwrap();
+        }
+        ents
+    };
     // entities marked late (after the churn below) and extra marked entities that are deleted again
     let late: std::collections::BTreeSet<usize> = if n == 0 { Default::default() } else { case.late.iter().map(|x| (*x as usize * n) >> 16).filter(|i| case.ents[*i].marked).collect() };
     let marked_idx: Vec<usize> = (0..n).filter(|i| case.ents[*i].marked).collect();
@@ -541,12 +552,15 @@ fn c14_dispatch(case: &SaveCase) -> Result<SaveFacts, Violation> {
 }
 
 fn c14_run(ctx: &ShardCtx) -> ShardResult {
-    let cases = ctx.tier.pick(10000, 30_000);
+    let cases = ctx.tier.pick(10000, 250_000);
     run_proptest(ctx, save_case(), cases, 14, |c, stats| {
         let f = c14_dispatch(c)?;
         stats.label(if c.uuid { "marker.uuid" } else { "marker.simple" });
         stats.label(if c.ron { "format.ron" } else { "format.json" });
         stats.label(if c.recursive { "recursive" } else { "non-recursive" });
+        if c.holes.first().map(|h| h % 2 == 1).unwrap_or(false) && c.churn.is_empty() {
+            stats.label("source_unmerged_on_recycled_indices");
+        }
         if c.shuffle.is_some() && !c.ron {
             stats.label("records_shuffled");
         }
@@ -597,6 +611,8 @@ pub enum MOp {
     Save { world: bool },
     Load { buf: u8, into: bool },
     SetPlain { world: bool, sel: u16, val: Option<u32> },
+    /// LazyUpdate::create_entity(..).marked::<M>().build(): the marking runs at the next maintain
+    LazyMarked { world: bool, plain: Option<u32> },
 }
 
 #[derive(Clone, Debug, Serialize, Deserialize, Hash, PartialEq, Eq)]
@@ -618,6 +634,7 @@ fn mop() -> impl Strategy<Value = MOp> {
         3 => any::<bool>().prop_map(|world| MOp::Save { world }),
         5 => (any::<u8>(), any::<bool>()).prop_map(|(buf, into)| MOp::Load { buf, into }),
         2 => (any::<bool>(), any::<u16>(), proptest::option::of(0u32..100)).prop_map(|(world, sel, val)| MOp::SetPlain { world, sel, val }),
+        2 => (any::<bool>(), proptest::option::of(0u32..100)).prop_map(|(world, plain)| MOp::LazyMarked { world, plain }),
     ]
 }
 
@@ -626,6 +643,8 @@ struct ERec {
     e: Entity,
     alive: bool,
     pending: bool,
+    /// a deferred marking (and a deferred Plain component) is queued for this entity
+    lazy_mark: Option<Option<u32>>,
     marker: Option<String>,
     num: Option<u64>,
     plain: Option<u32>,
@@ -741,7 +760,7 @@ fn c15_one<K: MarkerKind>(case: &MergeCase, mut transcript: Option<&mut Vec<Stri
             MOp::Create { world, marked, plain, late, refto } => {
                 let w = &mut ws[*world as usize];
                 let e = w.world.create_entity().build();
-                let mut rec = ERec { e, alive: true, pending: false, marker: None, num: None, plain: *plain, late: *late, refto: None };
+                let mut rec = ERec { e, alive: true, pending: false, lazy_mark: None, marker: None, num: None, plain: *plain, late: *late, refto: None };
                 if let Some(x) = plain {
                     w.world.write_storage::<Plain>().insert(e, Plain(*x)).unwrap();
                 }
@@ -834,6 +853,20 @@ fn c15_one<K: MarkerKind>(case: &MergeCase, mut transcript: Option<&mut Vec<Stri
                     }
                 }
             }
+            MOp::LazyMarked { world, plain } => {
+                use specs::saveload::MarkedBuilder;
+                let w = &mut ws[*world as usize];
+                let e = {
+                    let lazy = w.world.read_resource::<LazyUpdate>();
+                    let ents = w.world.entities();
+                    let b = lazy.create_entity(&ents).marked::<K::M>();
+                    match plain {
+                        Some(x) => b.with(Plain(*x)).build(),
+                        None => b.build(),
+                    }
+                };
+                w.recs.push(ERec { e, alive: true, pending: false, lazy_mark: Some(*plain), marker: None, num: None, plain: None, late: false, refto: None });
+            }
             MOp::Maintain { world } => {
                 let w = &mut ws[*world as usize];
                 w.world.maintain();
@@ -843,6 +876,33 @@ fn c15_one<K: MarkerKind>(case: &MergeCase, mut transcript: Option<&mut Vec<Stri
                             deleted_marked[*world as usize] = true;
                         }
                         w.kill(i);
+                    }
+                }
+                // deferred markings ran after the deletions: a still unmarked live entity got a new id,
+                // an entity marked in the meantime keeps its marker
+                for i in 0..w.recs.len() {
+                    if let Some(plain) = w.recs[i].lazy_mark.take() {
+                        if !w.recs[i].alive {
+                            continue;
+                        }
+                        if let Some(x) = plain {
+                            w.recs[i].plain = Some(x);
+                        }
+                        if w.recs[i].marker.is_none() {
+                            let lm = w.live_marked();
+                            let got = w.world.read_storage::<K::M>().get(w.recs[i].e).map(|m| (K::id_string(m), K::numeric(m)));
+                            match got {
+                                Some((id, num)) => {
+                                    ensure!("C15", "allocated-id-in-use", !lm.contains_key(&id), "{}: the deferred marking of {:?} used marker id {} which a live entity already carries", step, w.recs[i].e, id);
+                                    w.recs[i].marker = Some(id);
+                                    w.recs[i].num = num;
+                                    if let Some(nm) = num {
+                                        w.max_num = w.max_num.max(nm);
+                                    }
+                                }
+                                None => return Err(vio("C15", "lazy-mark-missing", format!("{}: the deferred marking of the live {:?} left it unmarked", step, w.recs[i].e))),
+                            }
+                        }
                     }
                 }
             }
@@ -877,7 +937,7 @@ fn c15_one<K: MarkerKind>(case: &MergeCase, mut transcript: Option<&mut Vec<Stri
                 w.world.write_storage::<K::M>().insert(e, m).unwrap();
                 w.max_num = num;
                 facts.explicit += 1;
-                w.recs.push(ERec { e, alive: true, pending: false, marker: Some(id), num: Some(num), plain: None, late: false, refto: None });
+                w.recs.push(ERec { e, alive: true, pending: false, lazy_mark: None, marker: Some(id), num: Some(num), plain: None, late: false, refto: None });
             }
             MOp::SetPlain { world, sel, val } => {
                 let w = &mut ws[*world as usize];
@@ -959,7 +1019,7 @@ fn c15_one<K: MarkerKind>(case: &MergeCase, mut transcript: Option<&mut Vec<Stri
                         }
                         None => {
                             // new entity: find it in the real world by its marker
-                            w.recs.push(ERec { e: w.recs.first().map(|x| x.e).unwrap_or_else(|| w.world.entities().entity(0)), alive: true, pending: false, marker: Some(r.id.clone()), num: r.id.parse().ok(), plain: None, late: false, refto: None });
+                            w.recs.push(ERec { e: w.recs.first().map(|x| x.e).unwrap_or_else(|| w.world.entities().entity(0)), alive: true, pending: false, lazy_mark: None, marker: Some(r.id.clone()), num: r.id.parse().ok(), plain: None, late: false, refto: None });
                             created.insert(r.id.clone(), w.recs.len() - 1);
                             facts.created_by_load += 1;
                             w.recs.len() - 1
@@ -1028,6 +1088,7 @@ pub fn det_merge(case: &MergeCase) -> Result<Vec<String>, Violation> {
             .map(|o| match o {
                 MOp::Create { world, marked: true, .. } => MOp::Explicit { world: *world, delta: 0 },
                 MOp::Mark { world, .. } => MOp::Explicit { world: *world, delta: 1 },
+                MOp::LazyMarked { world, .. } => MOp::Explicit { world: *world, delta: 2 },
                 other => other.clone(),
             })
             .collect();
@@ -1056,7 +1117,7 @@ fn merge_case(max_ops: usize) -> impl Strategy<Value = MergeCase> {
 }
 
 fn c15_run(ctx: &ShardCtx) -> ShardResult {
-    let cases = ctx.tier.pick(10000, 30_000);
+    let cases = ctx.tier.pick(10000, 200_000);
     let max_ops = ctx.tier.pick(40, 150);
     run_proptest(ctx, merge_case(max_ops), cases, 15, |c, stats| {
         let f = c15_dispatch(c)?;
